@@ -192,18 +192,27 @@ func startOf(ends []int, i int) int {
 }
 
 type CaseCut struct {
-	Type     string  `json:"type"`
-	V        *Value  `json:"v"`
-	Cuts     []int   `json:"cuts,omitempty"`      // empty: every cut position 0..len-1
-	Prior    *Value  `json:"prior,omitempty"`     // if set: the receiver has decoded this other message before it is given the prefix
-	Pre      []PreOp `json:"pre,omitempty"`       // prior calls / process-wide settings
-	PriorCut int     `json:"prior_cut,omitempty"` // if > 0: the receiver was offered only the first PriorCut mod len bytes of Prior's encoding (an abandoned partial message)
-	Shape    string  `json:"shape,omitempty"`     // how the prefix sits in memory: "" exactly sized; "subslice": a slice of a larger receive array whose capacity still covers the rest of the message; "stale": a buffer that held the whole message before, was reset and now holds the prefix
-	Sweep    bool    `json:"sweep,omitempty"`     // one receiver object is offered all the prefixes in turn (a receive loop retrying as more data arrives) instead of a fresh one per prefix
+	Type     string      `json:"type"`
+	V        *Value      `json:"v"`
+	Cuts     []int       `json:"cuts,omitempty"`      // empty: every cut position 0..len-1
+	Prior    *Value      `json:"prior,omitempty"`     // if set: the receiver has decoded this other message before it is given the prefix
+	Pre      []PreOp     `json:"pre,omitempty"`       // prior calls / process-wide settings
+	PriorCut int         `json:"prior_cut,omitempty"` // if > 0: the receiver was offered only the first PriorCut mod len bytes of Prior's encoding (an abandoned partial message)
+	Shape    string      `json:"shape,omitempty"`     // how the prefix sits in memory: "" exactly sized; "subslice": a slice of a larger receive array whose capacity still covers the rest of the message; "stale": a buffer that held the whole message before, was reset and now holds the prefix
+	Sweep    bool        `json:"sweep,omitempty"`     // one receiver object is offered all the prefixes in turn (a receive loop retrying as more data arrives) instead of a fresh one per prefix
+	Big      *CaseC18Msg `json:"big,omitempty"`       // if set (and V is not): the value is the type's skeleton with one prefixed field at exactly its prefix maximum
 }
 
 func oracleC11(c *CaseCut) *Failure {
 	defer runPrelude(c.Pre)()
+	if c.V == nil && c.Big != nil {
+		c.V, _, _ = c18Build(c.Big)
+		defer func() { c.V = nil }()
+	}
+	if c.V == nil {
+		Col.BrokenHarness("C11 case without a value")
+		return nil
+	}
 	enc, _, err, pan := LibEncode(c.V)
 	if err != nil || pan != nil {
 		return failf("C11/"+c.Type+"/encode", "canonical value not encodable: err=%v panic=%v", err, pan)
@@ -475,6 +484,51 @@ func TestC11(t *testing.T) {
 	Col.Property = "C11"
 	ReplayRegress(t, "C11")
 	RunProps(t, rpC11(MyTypes()))
+	t.Run("at-prefix-maximum", func(t *testing.T) {
+		// every 16-bit-prefixed text / list of every type at exactly 65535 bytes / entries (a prefix of all ones),
+		// at top level and nested; cuts near both ends, around the big field and at pseudo-random positions
+		x := splitmix(EnvSeed() ^ 0xC11)
+		for _, tn := range MyTypes() {
+			ts := Types[tn]
+			nkeys := 1
+			if di := ts.DynIndex(); di >= 0 {
+				nkeys = len(TableOf(ts, &ts.Fields[di]).Order)
+			}
+			seen := map[string]bool{}
+			for k := 0; k < nkeys; k++ {
+				var targets []c18Target
+				sk := Skeleton(tn, k)
+				c18Targets(sk, nil, &targets, 0)
+				for _, tg := range targets {
+					id := fmt.Sprint(tg.path, tg.field, tg.inner)
+					if di := ts.DynIndex(); di >= 0 && sk.F[di].O != nil {
+						id = sk.F[di].O.Type + id
+					}
+					if NSize(tg.ptype) != 2 || seen[id] || t.Failed() {
+						continue
+					}
+					seen[id] = true
+					big := &CaseC18Msg{Type: tn, Key: k, Path: tg.path, Field: tg.field, Inner: tg.inner, N: int(NMask(tg.ptype))}
+					v, _, ok := c18Build(big)
+					if !ok {
+						continue
+					}
+					l := len(Render(v, nil).Bytes)
+					cuts := []int{0, 1, 2, 3, l / 4, l / 2, 3 * l / 4, l - 65536, l - 65535, l - 65534, l - 200, l - 100, l - 30, l - 29, l - 28, l - 27, l - 9, l - 5, l - 4, l - 3, l - 2, l - 1}
+					for j := 0; j < 24; j++ {
+						x = splitmix(x)
+						cuts = append(cuts, int(x%uint64(max(1, l))))
+					}
+					c := &CaseCut{Type: tn, Big: big, Cuts: cuts}
+					Col.Case(Hash64([]byte(tn), []byte(id)), true, "field-at-its-prefix-maximum(65535)")
+					Col.Class("cuts-evaluated", int64(len(cuts)))
+					Col.Program(tn)
+					Direct(t, "C11", "c11", "atmax/"+tn+"/"+id, c, oracleC11)
+				}
+			}
+		}
+		Col.MarkExhaustive("every 16-bit-prefixed text/list field of every type (also nested) at exactly its prefix maximum x 46 cut positions")
+	})
 }
 
 func rpC11(types []string) (out []RProp) {
